@@ -27,13 +27,15 @@ use crate::MessageResponse;
 use crate::Service;
 use crate::{Error, Response};
 
+type Reply<S> = Result<Response<<S as Service>::Res>, Error>;
+
 /// A handle to the child process.
 pub struct Sandbox<S>
 where
     S: Service,
 {
-    send_request: Sender<S::Req>,
-    recv_response: Receiver<Result<Response<S::Res>, Error>>,
+    /// Every request travels with the channel its reply goes to.
+    send_request: Sender<(S::Req, Sender<Reply<S>>)>,
     join_handle: Cell<Option<JoinHandle<Result<(), Error>>>>,
     terminated: bool,
     _phantom: PhantomData<S>,
@@ -45,8 +47,7 @@ where
 {
     async fn run_task(
         config: S::Config,
-        recv_request: Receiver<S::Req>,
-        send_response: Sender<Result<Response<S::Res>, Error>>,
+        recv_request: Receiver<(S::Req, Sender<Reply<S>>)>,
     ) -> Result<(), Error> {
         let mut frame = Frame::new();
         let mut ctrlc = CtrlC::new().unwrap();
@@ -76,7 +77,7 @@ where
             response.result.map_err(Error::HandshakeFailure)?;
 
             loop {
-                let request = recv_request.recv().await?;
+                let (request, reply_to) = recv_request.recv().await?;
 
                 let written = frame
                     .write_async::<MessageRequest<S>, _>(Pin::new(&mut stdin), &request)
@@ -143,10 +144,10 @@ where
                     }
                 };
 
-                send_response
-                    .send(response)
-                    .await
-                    .map_err(|_| Error::Send("response to caller"))?;
+                // A caller that gave up on its request has dropped the
+                // other end. The reply goes nowhere then, rather than to
+                // the caller of a later request.
+                let _ = reply_to.send(response).await;
 
                 if break_out {
                     match process.kill() {
@@ -167,12 +168,10 @@ where
     /// that creates the child process.
     pub async fn new(config: S::Config) -> Result<Sandbox<S>, Error> {
         let (send_request, recv_request) = bounded(1);
-        let (send_response, recv_response) = bounded(1);
-        let join_handle = spawn_local(Self::run_task(config, recv_request, send_response));
+        let join_handle = spawn_local(Self::run_task(config, recv_request));
 
         Ok(Sandbox {
             send_request,
-            recv_response,
             join_handle: Cell::new(Some(join_handle)),
             terminated: false,
             _phantom: PhantomData,
@@ -202,12 +201,13 @@ where
             panic!("Sandbox::execute() called after terminated");
         }
 
+        let (reply_to, reply) = bounded(1);
         self.send_request
-            .send(req)
+            .send((req, reply_to))
             .await
             .map_err(|_| Error::Send("request to child"))?;
 
-        self.recv_response.recv().await?
+        reply.recv().await?
     }
 }
 
@@ -220,7 +220,6 @@ where
         let res = f
             .debug_struct("Sandbox")
             .field("send_request", &self.send_request)
-            .field("recv_response", &self.recv_response)
             .field("terminated", &self.terminated)
             .field("join_handle", &handle)
             .finish();
